@@ -147,7 +147,7 @@ fn front_end(entry: Entry, text: &str, with_ffi: bool, notes: &mut Vec<(String, 
 }
 
 /// Run one text, fold the result.
-fn run_text(space: &str, u: u64, c: u64, entry: Entry, text: &str, with_ffi: bool, acc: &mut Acc, accepted: &mut BTreeSet<u64>, describe: &dyn Fn() -> J) {
+fn run_text(space: &str, u: u64, c: u64, entry: Entry, text: &str, with_ffi: bool, acc: &mut Acc, accepted: &mut BTreeSet<u64>, describe: &dyn Fn() -> J) -> bool {
     CUR_CASE.store(c, Ordering::Relaxed);
     let mut notes = Vec::new();
     let res = mcx::catch(|| front_end(entry, text, with_ffi, &mut notes));
@@ -155,8 +155,10 @@ fn run_text(space: &str, u: u64, c: u64, entry: Entry, text: &str, with_ffi: boo
     for (k, ex) in notes {
         acc.note(&k, || ex);
     }
+    let mut parsed = false;
     match res {
         Ok(r) => {
+            parsed = r.parsed;
             for cl in &r.classes {
                 acc.outcome(cl);
             }
@@ -189,6 +191,7 @@ fn run_text(space: &str, u: u64, c: u64, entry: Entry, text: &str, with_ffi: boo
             acc.violation(u, c, key, format!("[{space}] {st} panicked `{msg}` at {loc} on input ({entry:?}): {}", text.chars().take(400).collect::<String>()), j);
         }
     }
+    parsed
 }
 
 // ---------------------------------------------------------------------------------------------
@@ -227,6 +230,9 @@ const T_STMT_ACTION: &str = "struct S { a int }\nfact F[k int]=>{v int}\ncommand
 const T_STMT_POLICY: &str = "struct S { a int }\nfact F[k int]=>{v int}\neffect E { a int }\nfinish function f(x int) { create F[k: x]=>{v: x} }\ncommand C { fields { a int } seal { return todo() } open { return todo() } policy {\n let x = this.a\n @\n } recall r() { finish {} } }\n";
 const T_STMT_FINISH: &str = "struct S { a int }\nfact F[k int]=>{v int}\neffect E { a int }\nfinish function f(x int) { create F[k: x]=>{v: x} }\ncommand C { fields { a int } seal { return todo() } open { return todo() } policy {\n let x = this.a\n finish {\n @\n }\n } recall r() { finish {} } }\n";
 const T_TYPE: &str = "enum K { A }\nstruct S { a int }\nstruct T { f @ }\n";
+
+/// Case-id offset of the "expression wrapped in a function" variant of a tok-expr case.
+const IN_FN_CASE: u64 = 1 << 40;
 
 impl TokSpace {
     fn new(name: &str, entry: Entry, template: &'static str, vocab: &[&'static str], max_len: usize) -> Self {
@@ -278,16 +284,22 @@ impl Space for TokSpace {
     fn run_unit(&self, u: u64, only: Option<u64>, skip: &BTreeSet<u64>, acc: &mut Acc) {
         let mut accepted = BTreeSet::new();
         for c in 0..self.cases_of(u) {
-            if only.is_some_and(|o| o != c) || skip.contains(&c) {
+            if only.is_some_and(|o| o != c && o != c + IN_FN_CASE) || skip.contains(&c) {
                 continue;
             }
             let Some(text) = self.text_of(u, c) else { continue };
-            run_text(&self.name, u, c, self.entry, &text, false, acc, &mut accepted, &|| json!({"token_space": self.name, "text": text}));
+            let parsed = run_text(&self.name, u, c, self.entry, &text, false, acc, &mut accepted, &|| json!({"token_space": self.name, "text": text}));
+            if parsed && self.entry == Entry::Expr && !skip.contains(&(c + IN_FN_CASE)) {
+                // every token string that is an expression is also compiled inside a function
+                let wrapped = T_EXPR_IN_FN.replace('@', &text);
+                acc.count("expressions_compiled_in_function", 1);
+                run_text(&self.name, u, c + IN_FN_CASE, Entry::Str, &wrapped, false, acc, &mut accepted, &|| json!({"token_space": self.name, "text": wrapped}));
+            }
         }
         acc.count("distinct_nontrivial", accepted.len() as u64);
     }
     fn describe_fatal(&self, u: u64, c: u64, aux: u64, how: &str) -> (String, String, J) {
-        let text = self.text_of(u, c).unwrap_or_default();
+        let text = if c >= IN_FN_CASE { T_EXPR_IN_FN.replace('@', &self.text_of(u, c - IN_FN_CASE).unwrap_or_default()) } else { self.text_of(u, c).unwrap_or_default() };
         (
             format!("{} killed the process ({how})", stage_name(aux)),
             format!("[{}] process killed by {how} during {} of: {}", self.name, stage_name(aux), text.chars().take(300).collect::<String>()),
@@ -566,7 +578,7 @@ impl Space for DocMutSpace {
         let (di, kind, ch) = self.units[u as usize];
         let (path, entry, _) = &self.docs[di];
         let mut accepted = BTreeSet::new();
-        if kind == 0 && ch == 0 && only.is_none() {
+        if kind == 0 && ch == 0 && only.is_none() && !skip.contains(&(u64::MAX - 1)) {
             // the unmodified document itself
             let text = &self.docs[di].2;
             let before = acc.counters.get("parsed_ok").copied().unwrap_or(0);
@@ -732,7 +744,7 @@ pub fn space_by_name(name: &str, args: &Args) -> Box<dyn Space> {
         "tok-stmt-policy" => Box::new(TokSpace::new("tok-stmt-policy", Entry::Str, T_STMT_POLICY, V_STMT, if t { 4 } else { 3 })),
         "tok-stmt-finish" => Box::new(TokSpace::new("tok-stmt-finish", Entry::Str, T_STMT_FINISH, V_STMT, if t { 4 } else { 3 })),
         "tok-top" => Box::new(TokSpace::new("tok-top", Entry::Str, "", V_TOP, if t { 5 } else { 4 })),
-        "tok-type" => Box::new(TokSpace::new("tok-type", Entry::Str, T_TYPE, V_TYPE, if t { 6 } else { 4 })),
+        "tok-type" => Box::new(TokSpace::new("tok-type", Entry::Str, T_TYPE, V_TYPE, if t { 5 } else { 4 })),
         "md" => Box::new(MdSpace::new(if t { 5 } else { 4 }, if t { 5 } else { 4 })),
         "docmut" => Box::new(DocMutSpace::new(t)),
         "ladder" => Box::new(LadderSpace { shapes: shapes(), max_depth: if t { 200 } else { 64 }, case_cap_s: if t { 8 } else { 2 } }),
@@ -768,7 +780,7 @@ pub fn run(args: &Args) {
     rep.set(
         "rule",
         format!(
-            "token strings (joined by single spaces) of every length ≤L over per-context vocabularies: bare expression L={} ({} tokens, parse_expression), top level L={} ({} tokens), expression / statement-in-function / -action / -policy / -finish templates L={} ({} / {} tokens), type position L={} ({} tokens); Markdown documents of ≤{} lines over {} line kinds (with and without trailing newline; quick: 4-line documents only with); every policy document under crates/ (*.md with front matter, *.policy): unmodified, every token deleted / duplicated / swapped with its successor, every byte truncation (quick: documents >3000 bytes get every token deletion, duplication/swap of every 4th token and truncation at line starts); {} nesting shapes at every depth 1..={} on an {} MiB main-thread stack. Every AST returned by the parser is compiled (debug on/off; documents also with the real FFI schemas and stub_ffi). non-trivial = distinct texts accepted by the grammar (reached the AST builder / compiler)",
+            "token strings (joined by single spaces) of every length ≤L over per-context vocabularies: bare expression L={} ({} tokens, parse_expression; each string that parses is also compiled inside a function), top level L={} ({} tokens), expression / statement-in-function / -action / -policy / -finish templates L={} ({} / {} tokens), type position L={} ({} tokens); Markdown documents of ≤{} lines over {} line kinds (with and without trailing newline; quick: 4-line documents only with); every policy document under crates/ (*.md with front matter, *.policy): unmodified, every token deleted / duplicated / swapped with its successor, every byte truncation (quick: documents >3000 bytes get every token deletion, duplication/swap of every 4th token and truncation at line starts); {} nesting shapes at every depth 1..={} on an {} MiB main-thread stack. Every AST returned by the parser is compiled (debug on/off; documents also with the real FFI schemas and stub_ffi). non-trivial = distinct texts accepted by the grammar (reached the AST builder / compiler)",
             if t { 5 } else { 4 },
             V_EXPR.len(),
             if t { 5 } else { 4 },
@@ -776,7 +788,7 @@ pub fn run(args: &Args) {
             if t { 4 } else { 3 },
             V_EXPR.len(),
             V_STMT.len(),
-            if t { 6 } else { 4 },
+            if t { 5 } else { 4 },
             V_TYPE.len(),
             if t { 5 } else { 4 },
             MD_LINES.len(),
